@@ -172,7 +172,7 @@ def run_nx(units, tier, repo, use_cache=True):
     try:
         crates = sorted(set(load_nx_unit(u)['crate'] for u in units))
         for crate in crates:
-            cp = os.path.join(WORK, 'cache', th, 'nx-%s.json' % crate)
+            cp = os.path.join(WORK, 'cache', th, 'nx-%s-%s.json' % (crate, tier))
             if use_cache and os.path.exists(cp):
                 with open(cp) as f:
                     out[crate] = json.load(f)
@@ -187,7 +187,8 @@ def run_nx(units, tier, repo, use_cache=True):
                     out[crate] = {'tests': {}, 'error': 'injection: %s' % e, 'wall_s': 0, 'cmd': ''}
                     continue
                 log('[nx] %s: native exhaustive stand-ins' % crate)
-                r = nxrun.run_tests(work, crate, [], log=os.path.join(WORK, 'cache', th, 'nx-%s.log' % crate))
+                r = nxrun.run_tests(work, crate, [], log=os.path.join(WORK, 'cache', th, 'nx-%s-%s.log' % (crate, tier)),
+                                    thorough=(tier == 'thorough'), timeout=5400 if tier == 'thorough' else 1800)
                 res = {'tests': r['tests'], 'wall_s': r['wall_s'], 'cmd': r['cmd'], 'reused': False}
                 if r['build_failed'] or r['timeout']:
                     errs = re.findall(r'^error.*$', r['out'], re.M)[:5]
